@@ -359,7 +359,7 @@ func genCacheRound(r rng, prop string) *cacheRound {
 	if prop == "C06" {
 		pRemove = 0.4
 	}
-	fam := r.weighted([]int{45, 25, 30})
+	fam := r.weighted([]int{42, 22, 28, 8})
 	nk := 0
 	switch fam {
 	case 0:
@@ -375,6 +375,15 @@ func genCacheRound(r rng, prop string) *cacheRound {
 		rd.family = "hot-keys"
 		rd.workers = r.between(2, 16)
 		nk = r.between(1, 6)
+	case 3: // read storm: overwrites of one or two live keys under a storm of lock-free readers
+		rd.family = "read-storm"
+		rd.workers = r.between(6, 16)
+		nk = r.between(1, 2)
+		rd.level, rd.focus, rd.procs = 0, vshim.NKinds, 16
+		rd.phases = 1
+		rd.advance = rd.advance[:1]
+		rd.janitor = false
+		rd.spec.Interval = 0
 	default:
 		rd.family = "resize-waves"
 		rd.workers = r.between(2, 12)
@@ -391,6 +400,19 @@ func genCacheRound(r rng, prop string) *cacheRound {
 			n := r.between(8, 30)
 			if rd.whole {
 				n = r.between(2, 6)
+			}
+			if rd.family == "read-storm" {
+				var pr []wop
+				for j := 0; j < r.between(30, 60); j++ {
+					k := pick(r, rd.hot)
+					if w%3 == 0 {
+						pr = append(pr, wop{kind: pick(r, []uint8{cSet, cGetAndSet, cCompute}), k: k, v: nextVal(k), fn: fnSet, d: pick(r, []time.Duration{time.Hour, cache.NoExpiration, 30 * time.Minute}), rec: true})
+					} else {
+						pr = append(pr, wop{kind: pick(r, cacheReadKinds), k: k, rec: true})
+					}
+				}
+				ws = append(ws, pr)
+				continue
 			}
 			ws = append(ws, genCacheProg(r, n, rd.hot, pClear, 0.3, pRemove))
 		}
@@ -473,6 +495,10 @@ func runLinzCache(a *args, res *result) {
 		r := newRng(a.seed, uint64(i)*8+5)
 		if a.prop == "C06" && i%4 == 3 {
 			closedScenario(r, res, i)
+			continue
+		}
+		if (a.prop == "C09" && i%5 == 4) || (a.prop != "C09" && a.prop != "C06" && i%16 == 15) {
+			defaultFlipRound(r, res, i)
 			continue
 		}
 		rd := genCacheRound(r, a.prop)
@@ -701,4 +727,111 @@ func closedScenario(r rng, res *result, idx int64) {
 		}
 	}
 	runtime.KeepAlive(c)
+}
+
+// defaultFlipRound: SetDefaultExpiration flips the default between a positive
+// value and a non-positive one while writers store with the DefaultExpiration
+// sentinel on keys of their own and read the expiry back. Every entry must be
+// armed with the old or the new default - i.e. expire at call time + D (clock
+// frozen) or never; anything else, including an entry that is already gone,
+// matches neither.
+func defaultFlipRound(r rng, res *result, idx int64) {
+	vshim.SetVirtual(true)
+	vshim.SetVNow(epoch)
+	d1 := pick(r, []time.Duration{time.Hour, time.Minute, 50 * time.Millisecond})
+	d2 := pick(r, []time.Duration{cache.NoExpiration, 0, -1, cache.DefaultExpiration, cache.NoExpiration - 1})
+	sp := cacheSpec{Flavor: pick(r, cacheFlavors), Ctor: "New", OptMask: 1 | 2, DefExp: d1, Interval: 0, NKeys: 256}
+	c := newCache(sp)
+	writers := r.between(2, 8)
+	level := pick(r, []int{0, 1, 2, 3})
+	procs := pick(r, []int{2, 4, 16})
+	desc := fmt.Sprintf("default-flip %s d1=%d d2=%d writers=%d level=%d procs=%d", sp.Flavor, d1, d2, writers, level, procs)
+	logCase("linzcache round %d: %s", idx, desc)
+	mode := vshim.MCount | vshim.MBudget
+	if level > 0 {
+		mode |= vshim.MPerturb
+	}
+	vshim.SetPerturb(level, pick(r, []vshim.Kind{vshim.KLoad, vshim.KAfterStore, vshim.NKinds}))
+	old := runtime.GOMAXPROCS(procs)
+	vshim.ResetLive()
+	vshim.SetMode(mode)
+	var wg sync.WaitGroup
+	var stop int32
+	start := make(chan struct{})
+	type finding struct{ sig, msg string }
+	finds := make([][]finding, writers)
+	var stores int64
+	wg.Add(1)
+	go func() {
+		defer wg.Done()
+		<-start
+		for atomic.LoadInt32(&stop) == 0 {
+			c.SetDefaultExpiration(d2)
+			c.SetDefaultExpiration(d1)
+		}
+	}()
+	var wwg sync.WaitGroup
+	seeds := make([]uint64, writers)
+	for i := range seeds {
+		seeds[i] = r.Uint64()
+	}
+	for w := 0; w < writers; w++ {
+		wwg.Add(1)
+		go func(w int) {
+			defer wwg.Done()
+			rr := newRng(int64(seeds[w]), uint64(w))
+			<-start
+			for j := 0; j < 150; j++ {
+				k := w*8 + rr.intn(8)
+				v := nextVal(k)
+				what := ""
+				switch rr.intn(5) {
+				case 0:
+					what = "SetDefault"
+					c.SetDefault(k, v)
+				case 1:
+					what = "Set(DefaultExpiration)"
+					c.Set(k, v, cache.DefaultExpiration)
+				case 2:
+					what = "GetAndSet(DefaultExpiration)"
+					c.GetAndSet(k, v, cache.DefaultExpiration)
+				case 3:
+					what = "Compute(DefaultExpiration)"
+					c.Compute(k, func(any, bool) (any, bool) { return v, false }, cache.DefaultExpiration)
+				default:
+					what = "Set+GetAndRefresh(DefaultExpiration)"
+					c.Set(k, v, time.Hour)
+					c.GetAndRefresh(k, cache.DefaultExpiration)
+				}
+				atomic.AddInt64(&stores, 1)
+				got, t, ok := c.GetWithExpiration(k)
+				e := int64(0)
+				if ok && !t.IsZero() {
+					e = t.UnixNano()
+				}
+				if !ok || got != any(v) || (e != 0 && e != epoch+int64(d1)) {
+					finds[w] = append(finds[w], finding{what + " under a concurrent SetDefaultExpiration arms an expiry that is neither the old nor the new default",
+						fmt.Sprintf("%s(k%d): GetWithExpiration = (%s, e=%d rel. now, ok=%v); defaults in play: %d and %d", what, k, fmtVal(got), e-epoch, ok, d1, d2)})
+				}
+				vshim.Progress()
+			}
+		}(w)
+	}
+	close(start)
+	wwg.Wait()
+	atomic.StoreInt32(&stop, 1)
+	wg.Wait()
+	vshim.SetMode(0)
+	runtime.GOMAXPROCS(old)
+	res.Evaluations++
+	res.count("family:default-flip", 1)
+	res.count("stores_under_default_flip", stores)
+	fp := newFP()
+	fp.addStr(desc)
+	res.nontrivial(fp.sum())
+	for _, fs := range finds {
+		for _, f := range fs {
+			res.violate(violation{Class: "expiry", Sig: f.sig, Msg: sp.Flavor + ": " + f.msg, Case: map[string]any{"case_index": idx, "desc": desc}})
+		}
+	}
 }
